@@ -61,8 +61,8 @@ func txFromSpec(m map[string]interface{}) *bt.Tx {
 			PreviousTxOutIndex: binary.LittleEndian.Uint32(unints(im["vout"])),
 			SequenceNumber:     binary.LittleEndian.Uint32(unints(im["seq"])),
 			PreviousTxSatoshis: binary.LittleEndian.Uint64(unints(im["sats"])),
-			UnlockingScript:    bscript.NewFromBytes(unints(im["us"])),
-			PreviousTxScript:   bscript.NewFromBytes(unints(im["ps"])),
+			UnlockingScript:    scriptObj(unints(im["us"]), len(tx.Inputs)),
+			PreviousTxScript:   scriptObj(unints(im["ps"]), len(tx.Inputs)+1),
 		}
 		_ = in.PreviousTxIDAdd(bt.ReverseBytes(unints(im["txid"])))
 		tx.Inputs = append(tx.Inputs, in)
@@ -72,6 +72,15 @@ func txFromSpec(m map[string]interface{}) *bt.Tx {
 		tx.Outputs = append(tx.Outputs, &bt.Output{Satoshis: binary.LittleEndian.Uint64(unints(om["sats"])), LockingScript: bscript.NewFromBytes(unints(om["ls"]))})
 	}
 	return tx
+}
+
+// scriptObj wraps bytes as a *bscript.Script; an empty script is, depending on its position, an empty
+// non-nil slice or a nil slice (new(bscript.Script), NewFromBytes(nil)): both are "the empty script".
+func scriptObj(b []byte, k int) *bscript.Script {
+	if len(b) == 0 && k%2 == 1 {
+		return bscript.NewFromBytes(nil)
+	}
+	return bscript.NewFromBytes(b)
 }
 
 // txView records everything C01 says about one decoded / built transaction.
